@@ -6,7 +6,7 @@ ENTRY = "searcharray.solr.edismax(frame, q, qf, pf=..., pf2=..., pf3=...)"
 LEVEL = "proof"
 RULE = ("as C09 with pf / pf2 / pf3 any subsets of the query fields with boosts, frames where only some rows match the "
         "query fields (so the matching subset's statistics differ from the frame's), 2-, 3-, 4+-term queries and queries "
-        "shorter than the shingle size. Non-trivial = a row whose score exceeds its query-field score and a row kept at 0.")
+        "shorter than the shingle size. Non-trivial = a row with a positive score and a row kept at 0.")
 TRUSTED = B.TRUSTED
 ASSUMPTIONS = B.ASSUMPTIONS
 EXPLANATION = ("model = phrase phases on the view of rows with positive query-field score, added back at those rows; spec = "
